@@ -8,7 +8,7 @@ from ..cfg import NORMAL, Node
 from ..core import Ctx
 from ..flow import ALL, find_path, names_in
 from ..model import AnalysisError, FunctionInfo, dotted, norm_text
-from .common import UNKNOWN, walk_all, resolve_value, concrete_eval, eval3, edge_target, explore, kwarg, reachable_from
+from .common import UNKNOWN, walk_all, judged_in_callers, resolve_value, concrete_eval, eval3, edge_target, explore, kwarg, reachable_from
 
 EXPLANATION = (
     "Static analysis of the metadata mutators: (R1) sibling agreement of the three snapshot-removal sites (expire mutator, "
@@ -108,6 +108,49 @@ def check(ctx: Ctx) -> None:
     r6(ctx)
     r7(ctx)
     r8(ctx)
+    # "the snapshot log lists only retained snapshots in commit order"
+    from .c09 import r10_log_order
+    r10_log_order(ctx, "C15.R9")
+    carried_keep_provenance(ctx)
+    # "the metadata log names existing superseded versions": nobody but the sanctioned owners deletes a metadata file
+    from .c09 import r3 as c09_r3
+    ctx.shared(c09_r3, "C09.R3", "C15.R11", "a second deleter of metadata versions removes files the metadata log still names")
+
+
+def carried_keep_provenance(ctx: Ctx, rid: str = "C15.R10") -> None:
+    ctx.rule(rid, "whoever carries files over keeps their origin: at every create_manifest_file(existing_files=X) site of the package, "
+             "X holds the DataFile objects read from the manifests - a DataFile(...) rebuilt on the way must pass added_snapshot_id "
+             "and sequence_number from its source (the writer stamps EXISTING entries from exactly those two fields)", 1)
+    n_sites = 0
+    for f in sorted(ctx.prog.functions.values(), key=lambda x: x.qname):
+        if isinstance(f.node, ast.Lambda) or judged_in_callers(ctx, f):
+            continue
+        g = ctx.cfg(f)
+        for c in g.calls():
+            if c.id not in g.reachable() or not any(t.name == "create_manifest_file" for t in ctx.eff.callees(f, c)):
+                continue
+            tg = [t for t in ctx.eff.callees(f, c) if t.name == "create_manifest_file"][0]
+            ex = ctx.eff.bind_arg(c.ast, tg, "existing_files", True)  # type: ignore[arg-type]
+            if ex is None or (isinstance(ex, ast.Constant) and ex.value is None):
+                continue
+            n_sites += 1
+            org = ctx.slicer(f).origins(ex, c.id)
+            rebuilt = [x for x in org["calls"] if isinstance(x, ast.Call) and (dotted(x.func) or "").split(".")[-1] == "DataFile"]
+            bad = []
+            for x in rebuilt:
+                kws = {k.arg: k.value for k in x.keywords if k.arg}
+                star = any(k.arg is None for k in x.keywords)
+                for fld in ("added_snapshot_id", "sequence_number"):
+                    v = kws.get(fld)
+                    if star:
+                        continue
+                    if v is None or not (isinstance(v, ast.Attribute) and v.attr == fld):
+                        bad.append(f"{norm_text(x)[:40]}... lacks {fld}=<source>.{fld}")
+            ctx.ob(rid, f, "carried-over DataFiles keep added_snapshot_id / sequence_number", c, not bad,
+                   "existing_files are the manifest's own objects (or full copies)" if not bad else
+                   f"{bad[:2]}: the rewritten manifest stamps these files with no origin (snapshot_id / sequence_number NULL) - history is "
+                   "falsified from this commit on")
+    ctx.ob(rid, None, "carry-over sites enumerated", None, n_sites >= 1, f"{n_sites} site(s)", nontrivial=False)
 
 
 def _snap_assign(ctx: Ctx, f: FunctionInfo) -> List[Node]:
